@@ -220,10 +220,10 @@ def _build_diff(case):
     els = DIFF_ELS[case['els']]
     zlim = [-5e-4, 5e-4]
     if case['model'] == 'single':
-        m = SinglePhaseModel(zlim, case['N'], els, ['ALPHA'], thermodynamics=diff_env.AnalyticDiffusivity(len(els)), record=case['record'])
+        m = SinglePhaseModel(zlim, case['N'], els, ['ALPHA'], thermodynamics=diff_env.AnalyticDiffusivity(len(els)), record=case['record'] in (True, 'off-after-1'))
     else:
         m = HomogenizationModel(zlim, case['N'], els, ['ALPHA', 'BETA'], thermodynamics=diff_env.AnalyticMobilityTherm(els),
-                                homogenizationParameters=HomogenizationParameters('wiener upper', labyrinthFactor=2), record=case['record'])
+                                homogenizationParameters=HomogenizationParameters('wiener upper', labyrinthFactor=2), record=case['record'] in (True, 'off-after-1'))
     prof = [(0.12, 0.40), (0.30, 0.10)]
     for e, (a, b) in zip(m.elements, prof):
         if case['profile'] == 'linear':
@@ -250,7 +250,7 @@ def run_diff(case):
 def _run_diff(case):
     viol, seen = [], set()
     tag = ' '.join('%s=%s' % (k, case[k]) for k in sorted(case))
-    rec = 'on' if case['record'] else 'off'
+    rec = {True: 'on', False: 'off'}.get(case['record'], case['record'])
 
     def bad(sig, msg):
         if sig not in seen:
@@ -270,6 +270,10 @@ def _run_diff(case):
         A = _build_diff(case)
         for k in range(case['save']):
             A.solve(dt_call, solverType=it)
+            if k == 0 and case['record'] == 'off-after-1':
+                A.disableRecording()      # documented: keeps what has been recorded so far
+            if k == 0 and case['record'] == 'on-after-1':
+                A.enableRecording()
         fname = os.path.join(d, 'diff' + ('.npz' if case['ext'] else ''))
         try:
             A.save(fname)
@@ -994,7 +998,7 @@ def run(ctx):
     dcases = []
     for model in ['single', 'homog']:
         for els in ['bin', 'tern']:
-            for record in [True, False]:
+            for record in [True, False, 'off-after-1', 'on-after-1']:
                 for save in [1, 2, 3]:
                     for ext in [True, False]:
                         for it in (['euler'] if quick else ['euler', 'rk4']):
